@@ -523,3 +523,7 @@ CHECKS["C13"]["text"] += (
     " The fluorescence channel of the measurement (1 with traces, 2, 3) is "
     "a dimension for the fluorescence corruptions (incl. a missing "
     "mandatory fluorescence key).")
+CHECKS["C14"]["text"] += (
+    " Definitions of type 'remote' whose format and location are those of a "
+    "local file are a kind of their own: never followed below a network "
+    "hop.")
